@@ -199,7 +199,9 @@ func specTip(blocks []*rBlock) *rBlock {
 // cumulative work of the blocks ABOVE it (its own work is not counted); walk down from genesis and at every fork take
 // the first child in arrival order whose subtree holds a leaf of maximum value. Also returned: every leaf of that
 // maximum value (the ones a rounding error in the sums could select instead).
-func fallbackChoice(blocks []*rBlock) (*rBlock, []*rBlock) {
+// countLeaf = true values a leaf by its full cumulative work instead (what a repaired fall-back would do); with equal
+// bits everywhere both variants select the same leaf.
+func fallbackChoice(blocks []*rBlock, countLeaf bool) (*rBlock, []*rBlock) {
 	kids := map[*rBlock][]*rBlock{}
 	var root *rBlock
 	for _, b := range blocks {
@@ -220,6 +222,10 @@ func fallbackChoice(blocks []*rBlock) (*rBlock, []*rBlock) {
 	value := func(leaf *rBlock) *big.Rat {
 		if leaf.Parent == nil {
 			return new(big.Rat)
+		}
+		if countLeaf {
+			eval(leaf)
+			return leaf.work
 		}
 		eval(leaf.Parent)
 		return leaf.Parent.work
